@@ -189,7 +189,7 @@ class Body:
     def reach(self, starts, avoid_blocks=(), avoid_edges=()):
         """Blocks reachable from `starts` (blocks) without entering avoid_blocks / crossing avoid_edges.
         A start block that is itself in avoid_blocks is dropped (a path through it does not avoid it).
-        The result contains the successors reached, not the start blocks themselves unless they are re-entered."""
+        The result INCLUDES the start blocks (use reach(succ(b)) to ask whether b lies on a cycle)."""
         avoid_blocks = set(avoid_blocks)
         avoid_edges = set(avoid_edges)
         seen = set()
